@@ -213,6 +213,35 @@ def _session(args):
     return {'viols': [Violation(c, dict(sig, via='session'), ident, m).to_json() for c, sig, m in probs], 'stats': stats}
 
 
+def _liq_session(args):
+    """the same life-cycle clauses on isolated-margin sessions that end in a forced close (the C09 scenarios): the liquidation
+    order and the resting orders it cancels"""
+    from . import c09
+    from .. import fills
+    from ..core import Violation
+    L, side, averaged, where, stop, fast, emb, tp = args
+    ident = {'liq_session': True, 'leverage': L, 'side': side, 'averaged': averaged, 'where': where, 'stop': stop, 'fast': fast, 'embedding': list(emb), 'tp': tp}
+    case, r, lb = c09.scenario(L, side, averaged, where, 1, stop, 'futures', 'isolated', fast, emb, tp)
+    if r['error']:
+        return {'viols': [Violation('unexpected-exception', {'exc': r['error'][0]}, ident, '%s: %s' % r['error'][:2]).to_json()], 'stats': {}}
+    probs, stats = fills.c05(r['trace'], r['end'])
+    stats['orders'] = len(r['end']['final_statuses']) if r['end'] else 0
+    stats['forced_closes'] = int(r['end']['liquidations']) if r['end'] else 0
+    return {'viols': [Violation(c, dict(sig, via='liquidation-session'), ident, m).to_json() for c, sig, m in probs], 'stats': stats}
+
+
+def liq_cases(ctx):
+    emb = ctx.embedding
+    for L in (2, 10):
+        for side in ('long', 'short'):
+            for averaged in (False, True):
+                for where in ('cross', 'gap-over'):
+                    for stop in (None, ['beyond', 2]):
+                        for fast in (False, True):
+                            for tp in (None, 'partial'):
+                                yield (L, side, averaged, where, stop, fast, emb, tp)
+
+
 def session_cases(ctx):
     from . import c02
     for c in c02.cases(ctx):
@@ -238,7 +267,17 @@ def run(ctx):
             if v.sigkey() not in sigs:
                 sigs.add(v.sigkey())
                 ctx.add(v)
-    ctx.coverage['traces_validated_against_impl'] += len(sc)
+    lc = list(liq_cases(ctx))
+    for r in core.pmap(_liq_session, lc, chunksize=8):
+        for k, v in r['stats'].items():
+            ctx.count('liquidation-session:' + k, v)
+        for v in r['viols']:
+            v = Violation.from_json(v)
+            if v.sigkey() not in sigs:
+                sigs.add(v.sigkey())
+                ctx.add(v)
+    ctx.coverage['traces_validated_against_impl'] += len(sc) + len(lc)
+    ctx.coverage['bounds']['liquidation_sessions'] = len(lc)
     ctx.coverage['bounds']['sessions'] = len(sc)
     cov = ctx.coverage
     cov['evaluations'] = cov['transitions']
@@ -252,6 +291,10 @@ def run(ctx):
 
 
 def replay(case, ctx):
+    if case.get('liq_session'):
+        from ..core import Violation
+        r = _liq_session((case['leverage'], case['side'], case['averaged'], case['where'], case['stop'], case['fast'], tuple(case['embedding']), case['tp']))
+        return [Violation.from_json(v) for v in r['viols']]
     if case.get('session'):
         from .. import progs
         from ..core import Violation
